@@ -44,7 +44,12 @@ func (e *Exec) ascend(fr *Frame, st *BState, x *ssa.Call, args []SV) SV {
 		invs = ct.AscendInv[ord]
 		steps = ct.AscendStep[ord]
 	}
-	st.ghost["$ascbound"] = intSV(bigLit("(- 1000000000000000000000000000000)")) // below every key class
+	// before the first visit ascbound() is a lower bound of the stored key classes (a finite tree has one)
+	lo := e.fresh("ascend.lo", SInt)
+	nbound++
+	k0 := mk(SInt, fmt.Sprintf("k!q%d", nbound))
+	e.assume(implies(st.reach, mk(SBool, "forall", mk("binder", "(("+k0.Op+" Int))"), implies(hasAt(st, k0), le(lo, k0)))))
+	st.ghost["$ascbound"] = intSV(lo)
 	ghostTypes["$ascbound"] = types.Typ[types.Int]
 	st.ghost["$ascstopped"] = boolSV(tFalse)
 	ghostTypes["$ascstopped"] = types.Typ[types.Bool]
@@ -125,8 +130,8 @@ func (e *Exec) ascend(fr *Frame, st *BState, x *ssa.Call, args []SV) SV {
 	cur := e.fresh("ascend.cur", SInt)
 	nbound++
 	k2 := mk(SInt, fmt.Sprintf("k!q%d", nbound))
-	e.assume(implies(s.reach, and(hasAt(s, cur), le(bound, cur),
-		mk(SBool, "forall", mk("binder", "(("+k2.Op+" Int))"), implies(and(hasAt(s, k2), le(bound, k2)), le(cur, k2))))))
+	e.assume(implies(s.reach, and(hasAt(s, cur), le(bound, cur))))
+	e.assume(implies(s.reach, mk(SBool, "forall", mk("binder", "(("+k2.Op+" Int))"), implies(and(hasAt(s, k2), le(bound, k2)), le(cur, k2)))))
 	s.ghost["$btkey"] = intSV(cur)
 	ghostTypes["$btkey"] = types.Typ[types.Int]
 	item := &IfaceV{Ty: cf.Params[0].Type(),
@@ -147,6 +152,14 @@ func (e *Exec) ascend(fr *Frame, st *BState, x *ssa.Call, args []SV) SV {
 		env.bound["continues"] = boolSV(cont)
 		e.obligeNamed(out, fmt.Sprintf("ascend%d.step.%s", ord, strings.TrimPrefix(clauseLabel(sc, "step", i)[len("step"):], ".")), token.NoPos, scal(env.evalGoal(sc.Expr)))
 	}
+	// the step clauses — each its own obligation above — serve as lemmas for the obligations generated after them
+	// (preservation of the invariants, everything after the Ascend): assert, then assume
+	for _, sc := range steps {
+		env := e.specEnv(fr, out, nil)
+		env.oldSt = head
+		env.bound["continues"] = boolSV(cont)
+		e.assume(implies(out.reach, scal(env.eval(sc.Expr))))
+	}
 	bs := out.clone()
 	bs.reach = and(out.reach, cont)
 	for i, inv := range invs {
@@ -166,6 +179,17 @@ func (e *Exec) ascend(fr *Frame, st *BState, x *ssa.Call, args []SV) SV {
 	es.ghost["$btkey"] = intSV(intLit(0))
 	mrg := e.mergeStates(xs, es, es.reach)
 	st.reach, st.cells, st.heap, st.ghost = mrg.reach, mrg.cells, mrg.heap, mrg.ghost
+	// exit clauses: facts about the state right after the Ascend — obligations here, lemmas from here on
+	if ct != nil {
+		for i, xc := range ct.AscendExit[ord] {
+			env := e.specEnv(fr, st, nil)
+			e.obligeNamed(st, fmt.Sprintf("ascend%d.exit.%s", ord, strings.TrimPrefix(clauseLabel(xc, "exit", i)[len("exit"):], ".")), x.Pos(), scal(env.evalGoal(xc.Expr)))
+		}
+		for _, xc := range ct.AscendExit[ord] {
+			env := e.specEnv(fr, st, nil)
+			e.assume(implies(st.reach, scal(env.eval(xc.Expr))))
+		}
+	}
 	return &TupleV{}
 }
 
